@@ -20,4 +20,5 @@ out.append("replace github.com/nuts-foundation/nuts-node => "+repo)
 open('harness/go.mod','w').write("\n".join(out)+"\n")
 PY
 cp "$REPO/go.sum" harness/go.sum
+python3 tools/mkoverlay.py
 echo "setup ok"
